@@ -113,6 +113,19 @@ def run(ctx):
                 if not (d[2] == "call" and (d[3]["f"].get("fn") or "").endswith("Iterator::position")):
                     only_pos = False
                     casts.append((F.canon_of(b), "returns %s" % (b.rvname(d[3], 3) if d[2] == "rv" else "a projection")))
+    # an integer range used as the search domain must cover all 256 cells of the table
+    short_ranges = []
+    for b in scl:
+        for bi, si, st in b.stmts():
+            rv = st.get("rv")
+            if rv and rv["k"] == "agg" and rv["kind"].get("a") == "adt" and rv["kind"]["adt"].rsplit("::", 1)[-1] in ("Range", "RangeInclusive") and len(rv["ops"]) >= 2:
+                lo, hi = (op_const(rv["ops"][0]), op_const(rv["ops"][1]))
+                if lo is not None and hi is not None and const_int(lo) is not None and const_int(hi) is not None and (lo.get("ty") in ("u8", "u16", "usize", "u32")):
+                    n = const_int(hi) - const_int(lo) + (1 if rv["kind"]["adt"].endswith("RangeInclusive") else 0)
+                    if const_int(lo) != 0 or n != 256:
+                        short_ranges.append("%s..%s%s" % (const_int(lo), "=" if rv["kind"]["adt"].endswith("RangeInclusive") else "", const_int(hi)))
+    if short_ranges:
+        casts.append(("search domain", "range %s does not cover the 256 table cells" % short_ranges))
     # the table is consulted: Iterator::position over it, or a comparison of its Option<u16> cells with the unit
     cmp16 = [c for b in scl for c in b.calls if re.search(r"cmp::PartialEq(<.*>)?>?::(eq|ne)$", c.fn or "") and "Option<u16>" in (c.full or "")]
     ctx.ob(R, "encode-through-table", (len(pos) == 1 or bool(cmp16)) and not casts and only_pos, "string_to_bytes emits only positions found in the table (no u16 -> u8 shortcut)", s2b.where(),
